@@ -259,7 +259,20 @@ func init() {
 		e := o.E
 		for _, sp := range snapPkgs {
 			fn := o.Fn(sp.pkg + ".decodeState")
-			um := o.One(e.Calls(fn, "google.golang.org/protobuf/encoding/protodelim.UnmarshalFrom"), "unmarshal|"+sp.pkg, "the loader must read length-delimited records", fn)
+			ums := e.Calls(fn, "google.golang.org/protobuf/encoding/protodelim.UnmarshalFrom")
+			if len(ums) == 0 {
+				// the same reader with explicit options: what it accepts must not be less than the default reader
+				// (MaxSize 0 = 4 MiB default, -1 = unlimited); the writer has no cap at all
+				ums = e.Calls(fn, "(google.golang.org/protobuf/encoding/protodelim.UnmarshalOptions).UnmarshalFrom")
+				for _, c := range ums {
+					if max, set := constFieldOfStructArg(c.Common().Args[0], "MaxSize"); set {
+						o.Check(max < 0 || max == 0 || max >= 4<<20, "record-cap|"+sp.pkg, "the loader refuses records larger than "+itoa(int(max))+" bytes, which the snapshot writer produces without complaint (a large group or silence makes the next start fail on a file the process wrote itself)", c)
+					} else {
+						o.Fail("record-cap|"+sp.pkg, "the loader's record size limit is not a constant", c)
+					}
+				}
+			}
+			um := o.One(ums, "unmarshal|"+sp.pkg, "the loader must read length-delimited records", fn)
 			o.Site(um, sp.pkg+": decode loop")
 			ux := e.X(fn, um.(*ssa.Call))
 			ok := L("("+ux+" == nil)", true)
@@ -400,4 +413,41 @@ func stringFieldOf(e *Eng, pkg, typ string) string {
 		return ""
 	}
 	return name
+}
+
+// constFieldOfStructArg: v is a struct value built in place (composite literal); returns the constant stored into
+// its integer field `name` (0, true when the field is never written; false when a write is not a constant).
+func constFieldOfStructArg(v ssa.Value, name string) (int64, bool) {
+	u, ok := v.(*ssa.UnOp)
+	if !ok {
+		if _, isC := v.(*ssa.Const); isC {
+			return 0, true // zero value
+		}
+		return 0, false
+	}
+	al, ok := u.X.(*ssa.Alloc)
+	if !ok {
+		return 0, false
+	}
+	val, set := int64(0), true
+	for _, ref := range *al.Referrers() {
+		fa, ok := ref.(*ssa.FieldAddr)
+		if !ok {
+			continue
+		}
+		st, ok := fa.X.Type().Underlying().(*types.Pointer).Elem().Underlying().(*types.Struct)
+		if !ok || st.Field(fa.Field).Name() != name {
+			continue
+		}
+		for _, r2 := range *fa.Referrers() {
+			if s, ok := r2.(*ssa.Store); ok && s.Addr == fa {
+				c, ok := s.Val.(*ssa.Const)
+				if !ok || c.Value == nil {
+					return 0, false
+				}
+				val = c.Int64()
+			}
+		}
+	}
+	return val, set
 }
